@@ -624,6 +624,10 @@ func (env *LEnv) Update(k, v *LVal) *LVal {
 }
 
 func (env *LEnv) update(k, v *LVal) *LVal {
+	// The error for an unbound name is located by the environment the set!
+	// was evaluated in, not by the root the walk below ends at: the root's
+	// current location is the outermost enclosing form.
+	origin := env
 	for {
 		_, ok := env.scope[k.Str]
 		if ok {
@@ -633,7 +637,7 @@ func (env *LEnv) update(k, v *LVal) *LVal {
 		if env.parent == nil {
 			lerr := env.Runtime.Package.Update(k, v)
 			if lerr.Type == LError {
-				if err := env.ErrorAssociate(lerr); err != nil {
+				if err := origin.ErrorAssociate(lerr); err != nil {
 					return err
 				}
 				return lerr
